@@ -72,11 +72,13 @@ FLOORS = {
                               "mode:async.render_async": 120000, "mode:async.render": 60000,
                               "mode:sandbox.render": 60000, "const_expr_checks": 100,
                               "builtin_producer_checks": 100,
-                              "producer_checks": 60000, "producer_literal_input": 35000,
-                              "producer_variable_input": 24000, "producer_single_nonstring": 45000,
-                              "producer_single_subclass_or_object": 24000, "block_checks": 50000,
-                              "block_super_checks": 18000, "block_self_checks": 18000,
-                              "block_reference_nonstring_output": 25000}},
+                              # producers / blocks: 4000 cases per shard each (256k checks) when
+                              # idle, time-boxed to 20% of the budget each (~70-100k at load ~6x)
+                              "producer_checks": 15000, "producer_literal_input": 9000,
+                              "producer_variable_input": 6000, "producer_single_nonstring": 11000,
+                              "producer_single_subclass_or_object": 6000, "block_checks": 20000,
+                              "block_super_checks": 7000, "block_self_checks": 7000,
+                              "block_reference_nonstring_output": 10000}},
 }
 
 MODES = ["sync.render", "async.render_async", "async.render", "sandbox.render"]
@@ -985,7 +987,8 @@ def run(ctx):
         case = gen_producer_case(rng)
         for mode in MODES:
             check_producer(ctx, mode, case)
-        if ctx.out_of_time():
+        if not quick and ctx.elapsed() > ctx.budget_s * 0.2:
+            ctx.count("producers_timeboxed")
             break
     rng = ctx.rng("blocks")
     for i in range(90 if quick else 4000):
@@ -996,7 +999,8 @@ def run(ctx):
             ctx.sample({"templates": build_block_case(case, {k: make_value(v) for k, v in
                                                              case["data"].items()})[0],
                         "data": case["data"]})
-        if not quick and ctx.elapsed() > ctx.budget_s * 0.5:
+        if not quick and ctx.elapsed() > ctx.budget_s * 0.4:
+            ctx.count("blocks_timeboxed")
             break
     rng = ctx.rng("cases")
     n_max = 700 if quick else 30000
